@@ -96,7 +96,9 @@ def run(repo, chk):
     g2 = CFG(ia.node, lambda s_: isinstance(s_, (ast.Raise, ast.Assert)))
     tests = [n for n in g2.nodes if n.kind == "test" and norm(n.stmt.test).endswith("is ABSENT") and "not" not in norm(n.stmt.test)]
     logs = g2.find(lambda n: n.kind == "stmt" and ".log(" in n.text())
-    ok = bool(tests) and bool(logs) and all(not g2.path_exists(g2.entry, l, avoid=tests) for l in logs) and \
+    from .shared import marker_free_definitions
+    vname_ = ia.node.args.args[4].arg if len(ia.node.args.args) >= 6 else "value"
+    ok = bool(tests) and bool(logs) and all(not g2.path_exists(g2.entry, l, avoid=tests + marker_free_definitions(ia, g2, vname_)) for l in logs) and \
         all(isinstance(m.stmt, ast.Raise) for t in tests for m, lab in t.succ if lab == "t")
     chk.ob("R07.3", "interpret.Interactor.interact:only-bound-values-are-accumulated", ok, ia.where,
            "a value is logged into the accumulators only after the `is ABSENT` guard: a declared-but-unset variable is never recorded as a value, "
